@@ -146,7 +146,7 @@ variable (db : Db) (s : JState) (a : Addr)
 @[simp] theorem absT_notExisting : (absT db s).notExisting a = (absAcct db s a).notExisting := rfl
 @[simp] theorem absT_warm : (absT db s).warm a = (absAcct db s a).warm := rfl
 @[simp] theorem absT_slot : (absT db s).slot a = (absAcct db s a).slot := rfl
-@[simp] theorem absT_tr : (absT db s).tr = tload s := rfl
+theorem absT_tr : (absT db s).tr = tload s := rfl
 end proj
 
 @[simp] theorem sdOf_setAcct (s : JState) (a : Addr) (acc : Acct) : sdOf (setAcct s a acc) = sdOf s := rfl
@@ -195,9 +195,15 @@ theorem tload_setTransient (s : JState) (a : Addr) (k : Nat) (v : Option Nat) :
     tload (setTransient s a k v) = fun b j => if b = a ∧ j = k then v.getD 0 else tload s b j := by
   funext b j; simp only [tload, setTransient]; by_cases h : b = a ∧ j = k <;> simp [h]
 
+/-- undo of a touch on the observable mark: cleared, except that 0x03 keeps it from Spurious Dragon on -/
+def unT (sd : Bool) (a : Addr) (t : Bool) : Bool := if sd ∧ a = PRECOMPILE3 then t else false
+
+theorem unT_maskT (sd : Bool) (a : Addr) (t : Bool) : unT sd a (maskT sd a t) = maskT sd a false := by
+  unfold unT maskT; by_cases h : sd = true ∧ a = PRECOMPILE3 <;> simp [h]
+
 def undoT (sd : Bool) (x : AState) : Entry → AState
   | .accountWarmed a => { x with warm := upd x.warm a false }
-  | .accountTouched a => if sd ∧ a = PRECOMPILE3 then x else { x with touched := upd x.touched a false }
+  | .accountTouched a => { x with touched := upd x.touched a (unT sd a (x.touched a)) }
   | .accountDestroyed a t was had =>
     let b1 := upd x.balance a (U256.wadd (x.balance a) had)
     { x with selfdestructed := upd x.selfdestructed a was
